@@ -91,11 +91,14 @@ Definition util_rescale (o : interp) (img : qarr) (s : Qc) : result oarr :=
 (* ---- lentil.Plane ---- *)
 Inductive fld := FScalar (v : Qc) | FArr (a : qarr).                      (* ndim 0 | ndim 2 *)
 Inductive msk := MScalar (v : Qc) | MMono (a : qarr) | MCube (l : list qarr).   (* ndim 0 | 2 | 3 *)
-Record plane := mkPlane { p_amp : fld; p_opd : fld; p_mask : msk; p_ps : option (Qc * Qc) }.
+(* p_tilt: the Tilt terms book-kept by fit_tilt (angles x, y), carried along by the deep copy *)
+Record plane := mkPlane { p_amp : fld; p_opd : fld; p_mask : msk; p_ps : option (Qc * Qc); p_tilt : list (Qc * Qc) }.
 
 Inductive ofld := OScalar (v : Qc) | OArr (a : oarr).
 Inductive omsk := OMono (a : oarr) | OCube (l : list oarr).
-Record oplane := mkOPlane { o_amp : ofld; o_opd : ofld; o_mask : omsk; o_ps : option (Qc * Qc) }.
+(* o_slice: plane._slice = _plane_slice(mask): one (rmin, rmax+1, cmin, cmax+1) per mask / segment (helper.boundary_slice) *)
+Record oplane := mkOPlane { o_amp : ofld; o_opd : ofld; o_mask : omsk; o_ps : option (Qc * Qc);
+                            o_tilt : list (Qc * Qc); o_slice : list (Z * Z * Z * Z) }.
 
 Definition smap (f : Qc -> Qc) (x : samp) : samp :=
   match x with Known v => Known (f v) | NonZero => NonZero | Unknown => Unknown end.
@@ -137,6 +140,22 @@ Definition nonempty_msk (m : omsk) : bool :=
 Definition rescale_msk (m : msk) (s : Qc) : result omsk :=
   rbind (rescale_msk0 m s) (fun m' => if nonempty_msk m' then Ok m' else Err IndexError).
 
+(* util.boundary: first and last row / column holding a non-zero sample *)
+Definition row_has (a : oarr) (i : Z) : bool := existsb (fun j => is_one (oget a i j)) (zrange (onc a)).
+Definition col_has (a : oarr) (j : Z) : bool := existsb (fun i => is_one (oget a i j)) (zrange (onr a)).
+Fixpoint first_from (f : Z -> bool) (start : Z) (fuel : nat) : option Z :=
+  match fuel with O => None | Datatypes.S k => if f start then Some start else first_from f (start + 1) k end.
+Fixpoint last_from (f : Z -> bool) (start : Z) (fuel : nat) : option Z :=
+  match fuel with O => None | Datatypes.S k => if f start then Some start else last_from f (start - 1) k end.
+Definition bbox (a : oarr) : Z * Z * Z * Z :=
+  match first_from (row_has a) 0 (Z.to_nat (onr a)), last_from (row_has a) (onr a - 1) (Z.to_nat (onr a)),
+        first_from (col_has a) 0 (Z.to_nat (onc a)), last_from (col_has a) (onc a - 1) (Z.to_nat (onc a)) with
+  | Some r0, Some r1, Some c0, Some c1 => (r0, r1 + 1, c0, c1 + 1)
+  | _, _, _, _ => (0, 0, 0, 0)          (* empty mask: the call has already raised IndexError *)
+  end.
+Definition slices (m : omsk) : list (Z * Z * Z * Z) :=
+  match m with OMono a => [bbox a] | OCube l => map bbox l end.
+
 Definition rescale_ps (ps : option (Qc * Qc)) (s : Qc) : option (Qc * Qc) :=
   match ps with None => None | Some (px, py) => Some (px / s, py / s)%Qc end.
 
@@ -144,7 +163,7 @@ Definition plane_rescale (P : plane) (s : Qc) : result oplane :=
   rbind (rescale_fld (p_amp P) s (fun v => v / s)%Qc) (fun a =>
   rbind (rescale_fld (p_opd P) s (fun v => v)) (fun o =>
   rbind (rescale_msk (p_mask P) s) (fun m =>
-  Ok (mkOPlane a o m (rescale_ps (p_ps P) s))))).
+  Ok (mkOPlane a o m (rescale_ps (p_ps P) s) (p_tilt P) (slices m))))).
 
 (* the float cast of an array / of every array of a plane *)
 Definition as_float (a : qarr) : qarr := mkQ (qnr a) (qnc a) (qget a) false.
@@ -152,7 +171,7 @@ Definition fld_as_float (f : fld) : fld := match f with FScalar v => FScalar v |
 Definition msk_as_float (m : msk) : msk :=
   match m with MScalar v => MScalar v | MMono a => MMono (as_float a) | MCube l => MCube (map as_float l) end.
 Definition plane_as_float (P : plane) : plane :=
-  mkPlane (fld_as_float (p_amp P)) (fld_as_float (p_opd P)) (msk_as_float (p_mask P)) (p_ps P).
+  mkPlane (fld_as_float (p_amp P)) (fld_as_float (p_opd P)) (msk_as_float (p_mask P)) (p_ps P) (p_tilt P).
 
 Definition qeqb (x y : Qc) : bool := match (x ?= y)%Qc with Eq => true | _ => false end.
 
@@ -173,8 +192,8 @@ Definition plane_resample (P : plane) (new_ps : Qc) : result oplane :=
        out   = map_coordinates(img, [yy, xx], order, mode)
        if unitary: out *= sum(img)/sum(out)                         (BEFORE the post-mask)
        out  *= post
-   An explicit mask of integer / bool dtype makes map_coordinates return that dtype and np.finfo raise ValueError
-   (finding C17-explicit-int-mask; the default mask is float because img was cast).  *)
+   An explicit mask of integer / bool dtype is cast to float first (like img), so the dtype flag [qint] of the mask
+   has no influence and eps is that of float64.  *)
 Inductive shapearg := ShNone | ShScalar (a : Z) | ShPair (a b : Z).
 
 Definition gen_shape (img : qarr) (sh : shapearg) (s : Qc) : Z * Z :=
@@ -238,9 +257,8 @@ Definition unitary_factor (img : qarr) (N M : Z) (pre : Z -> Z -> samp) : option
     if nz t then Some (qsum2 (qnr img) (qnc img) (qget img) / t)%Qc else None
   else None.
 
-Definition rescale_gen (o : interp) (img : qarr) (s : Qc) (sh : shapearg) (pm : option (qarr * Qc)) (pm_int : bool)
+Definition rescale_gen (o : interp) (img : qarr) (s : Qc) (sh : shapearg) (pm : option (qarr * Qc))
            (unitary : bool) : result oarr :=
-  if pm_int then Err ValueError else
   let '(N, M) := gen_shape img sh s in
   let cy := fun i => coord (qnr img) N s i in
   let cx := fun j => coord (qnc img) M s j in
